@@ -69,7 +69,8 @@ def scenarios(tier="quick"):
                 call(d.close)
                 yield (f"logix/{pname}/{pers}/{conn}", w, t)
     # 2. lifecycle: open / close / reopen, list_identity, discover, refused policies
-    for polname, pk in (("ok", {}), ("cid0", dict(conn_ids=[0, 0xFFFFFFFF])), ("large08", dict(large_fo="refuse08")), ("large08bare", dict(large_fo="refuse08bare")), ("large0109bare", dict(large_fo="refuse0109bare")), ("nofo", dict(large_fo="refuse08", std_fo="refuse")), ("nosession", dict(session="refuse")), ("nosession_h", dict(session="refuse-with-handle")), ("nofclose", dict(fclose="refuse"))):
+    for polname, pk in (("ok", {}), ("cid0", dict(conn_ids=[0, 0xFFFFFFFF])), ("large08", dict(large_fo="refuse08")), ("large08bare", dict(large_fo="refuse08bare")), ("large0109bare", dict(large_fo="refuse0109bare")), ("nofo", dict(large_fo="refuse08", std_fo="refuse")), ("nosession", dict(session="refuse")), ("nosession_h", dict(session="refuse-with-handle")), ("nofclose", dict(fclose="refuse")),
+                       ("fo_d0", dict(large_fo="refuse:d0")), ("fo_20", dict(large_fo="refuse:20", std_fo="refuse:20")), ("fo_2a", dict(large_fo="refuse:2a", std_fo="refuse:2a"))):
         t = enip.Target(enip.IdentityDevice(), enip.Policy(**pk), keep_cip=False)
         w = net.World(t, io_budget=10**7, send_regime=SEND_REGIME)
         w.__enter__()
